@@ -490,6 +490,7 @@ class C10:
             # the target is active when the optimizer is built (iteration 0 is logged with it) and is switched off before
             # the first call of the history (in execute); from then on its output must not matter
         case["twin_target"] = twin_t
+        case["twin_tol0"] = r.random() < 0.5
         return case
 
     @staticmethod
@@ -511,7 +512,13 @@ class C10:
             w = val
             twin = None
             if tt is not None:
-                twin, exc = call(lambda: OWorld(ctx.xd, spec, twist=(tt, 2.5)))
+                # the twin differs in what the disabled target returns - and, in half of the cases, in its tolerance (0: never met)
+                spec2 = spec
+                if case.get("twin_tol0"):
+                    spec2 = dict(spec)
+                    spec2["tols"] = list(spec["tols"])
+                    spec2["tols"][tt] = 0.0
+                twin, exc = call(lambda: OWorld(ctx.xd, spec2, twist=(tt, 2.5)))
                 if exc is not None:
                     twin = None
             dirty = False
